@@ -280,7 +280,7 @@ class Work:
             o = self.p('zzout', '%s-%d.json' % (engine, i))
             lf = open(self.p('zzout', '%s-%d.log' % (engine, i)), 'wb')
             cmd = ['timeout', '-s', 'QUIT', str(timeout), binary, '-engine', engine, '-seed', str(self.seed), '-tier', self.tier,
-                   '-shard', '%d/%d' % (i, shards), '-out', o, *args]
+                   '-shard', '%d/%d' % (i, shards), '-out', o, *merge_args(self, args)]
             procs.append((subprocess.Popen(cmd, cwd=self.dir, env=e, stdout=lf, stderr=subprocess.STDOUT), o, lf, i))
         reports = []
         for p, o, lf, i in procs:
@@ -469,6 +469,18 @@ def check_engine(prop, tier, seed, repo, keep):
         return finish(prop, tier, seed, t0, merged, RULES[prop], ASSUME, floors[0], floors[1], extra=gen_extra)
 
 
+def merge_args(w, args):
+    """All '-arg X' pairs are merged into one comma separated -arg (plus fds=<request dir>)."""
+    out, kv = [], ['fds=' + w.p('zzreq')]
+    it = iter(args)
+    for a in it:
+        if a == '-arg':
+            kv.append(next(it))
+        else:
+            out.append(a)
+    return out + ['-arg', ','.join(kv)]
+
+
 def read_progress(fn):
     import struct
     try:
@@ -492,7 +504,7 @@ def run_isolated(w, binary, engine, shard, shards, args, timeout, tag, stall=25)
     e['GOMAXPROCS'] = '2'
     e['GOTRACEBACK'] = 'single'
     cmd = [binary, '-engine', engine, '-seed', str(w.seed), '-tier', w.tier,
-           '-shard', '%d/%d' % (shard, shards), '-out', o, '-progress', pg, *args]
+           '-shard', '%d/%d' % (shard, shards), '-out', o, '-progress', pg, *merge_args(w, args)]
     timed_out = False
     with open(lg, 'wb') as lf:
         p = subprocess.Popen(cmd, cwd=w.dir, env=e, stdout=lf, stderr=subprocess.STDOUT)
